@@ -56,7 +56,7 @@ def check(tier: str) -> int:
         chk.cov["samples"].append(l)
     focuses = [("MC_Confused", "confused", {}, 1, 2), ("MC_Flow", "flow", {}, 1, 1),
                ("MC_Loops", "loops-single", {"Variant": '"single"'}, 1, 1),
-               ("MC_Scopes", "scopes", {}, 1, 2)]
+               ("MC_Scopes", "scopes", {}, 1, 2), ("MC_Sites", "sites", {}, 2, 3), ("MC_Exprs", "exprs", {}, 1, 1)]
     for module, name, consts, q, t in focuses:
         r = gen.run_focus(chk, module, name, max_top=t if tier == "thorough" else q, extra_constants=consts,
                           export="ExportInputs", invariants=())
